@@ -57,6 +57,8 @@ def typed_paths(ms: model.MS, prefix=()):
 def key_literal(e):
     if isinstance(e, tuple):
         return all(key_literal(x) for x in e)
+    if type(e) is float and (e != e or e in (float('inf'), float('-inf'))):
+        return False        # repr 'nan' / 'inf' is not a literal
     return e is None or type(e) in (int, str, float, bool, bytes)
 
 
@@ -75,7 +77,13 @@ class C04(runner.Prop):
 
     def strategy(self, tier):
         ml = 12 if tier == 'quick' else 22
-        return st.fixed_dictionaries({'t': gen.tree_descs(ml), 'cfg': gen.configs()})
+        # one stratum adds a NaN dict key: a key that is not equal to itself must still give accessors that are
+        # equal (and hash equally) to the accessors another call computes for the same tree
+        nan_keys = st.one_of(gen.key_descs(), gen.key_descs(), st.just(['nan']))
+        return st.one_of(st.fixed_dictionaries({'t': gen.tree_descs(ml), 'cfg': gen.configs()}),
+                         st.fixed_dictionaries({'t': gen.tree_descs(ml), 'cfg': gen.configs()}),
+                         st.fixed_dictionaries({'t': gen.tree_descs(ml, keys=nan_keys, kinds=('dict', 'od', 'dd', 'list', 'tuple', 'cm', 'nt')),
+                                                'cfg': gen.configs(predicates=['none', 'never'])}))
 
     def check_case(self, case, ctx):
         cfg = gen.sound_cfg(case)
@@ -91,6 +99,20 @@ class C04(runner.Prop):
                 ctx.fail('count', f'{len(accs)} accessors vs {len(mleaves)} model leaves')
                 return
             nontriv = False
+            # the same accessors computed by the other entry points (independent computations on the same tree)
+            others = {'tree_accessors': optree.tree_accessors(tree, **kw), 'spec.accessors': spec.accessors(),
+                      'treespec_accessors': optree.treespec_accessors(spec),
+                      'tree_flatten_with_accessor(again)': optree.tree_flatten_with_accessor(tree, **kw)[0]}
+            for name, other in others.items():
+                if len(other) != len(accs):
+                    ctx.fail('accessor/other_route_count', f'{name}: {len(other)} vs {len(accs)}')
+                    continue
+                for a1, a2 in zip(accs, other):
+                    if not (a1 == a2) or (a1 != a2) or hash(a1) != hash(a2) or len({a1, a2}) != 1:
+                        ctx.fail('accessor/eq_hash_across_routes', f'{name}: {a1!r} vs {a2!r}')
+                        break
+            if gen.contains_tag(case['t'], ('nan',)):
+                ctx.label('nan_key')
             for i, (acc, leaf, tp) in enumerate(zip(accs, leaves, tps)):
                 # access law
                 try:
@@ -127,6 +149,10 @@ class C04(runner.Prop):
                 rebuilt = optree.PyTreeAccessor(tuple(acc))
                 if rebuilt != acc or hash(rebuilt) != hash(acc):
                     ctx.fail('accessor/eq_hash', f'{acc!r}')
+                for ent in acc:          # an entry rebuilt from its own fields is the same entry
+                    twin = type(ent)(ent.entry, ent.type, ent.kind)
+                    if not (twin == ent) or (twin != ent) or hash(twin) != hash(ent):
+                        ctx.fail('entry/eq_hash_rebuilt', f'{ent!r}')
                 # slicing and concatenation
                 for k in range(len(acc) + 1):
                     a, b = acc[:k], acc[k:]
